@@ -109,6 +109,8 @@ class Contract:
         self.unroll = kw.pop('unroll', 0)
         self.faults = kw.pop('faults', [])
         self.ghost_after = kw.pop('ghost_after', {})   # unparse(statement) -> [(ghost var, spec expr)] executed right after it
+        self.abstract = kw.pop('abstract', {})         # first source line of a statement -> dict(assigns={var: type}, ensures=[...]): the statement is NOT executed,
+                                                       # its assigned variables are havoc'd and `ensures` assumed (a block contract that is assumed, listed in the evidence)
         self.hints = kw.pop('hints', {})          # where -> [spec exprs to instantiate (assume-after-prove)]
         assert not kw, 'unknown contract keys %r' % list(kw)
     @property
@@ -1848,8 +1850,19 @@ class Exec:
         self.cur_loc = getattr(st, 'lineno', None)
         meth = getattr(self, 's_' + type(st).__name__, None)
         if meth is None: raise Unsupported('statement %s' % type(st).__name__)
-        meth(st)
         c = self.frame.get('contract')
+        if c is not None and c.abstract:
+            head = ast.unparse(st).split('\n')[0].strip()
+            ab = c.abstract.get(head)
+            if ab is not None:
+                self.vf.note_ghost(c, 'abstract:' + head)
+                self.vf.note_assumption('assumed block contract in %s: `%s ...` assigns %s ensures %s' % (c.oname, head, sorted(ab.get('assigns', {})), ab.get('ensures', [])))
+                facts = []
+                for nme, tystr in ab.get('assigns', {}).items(): self.st.env[nme] = havoc(self.w.ty(tystr), nme, facts)
+                for f_ in facts: self.assume(f_)
+                for e_ in ab.get('ensures', []): self.assume(self.eval_spec(e_))
+                return
+        meth(st)
         if c is not None and c.ghost_after and isinstance(st, (ast.Expr, ast.Assign, ast.AugAssign, ast.Pass)):
             # ghost updates attached (in the sidecar) to a statement, identified by its normalised source text
             upd = c.ghost_after.get(ast.unparse(st))
